@@ -54,7 +54,18 @@ def gen(cs, kinds_pool=("sec", "fi", "cp", "cp", "fi", "hedge", "cphedge"), nd=(
             "cost_short": cs_.tolist() if rng.random() < 0.7 else None, "nv_rows": nv_rows, "nv": nv, "weights": ws, "sched": sched,
             "flip_rows": flip_rows, "integer": rng.random() < 0.3, "comm": rng.choice(["none", "none", "prop"]), "bidoffer": (rs.uniform(0, 0.2, size=(ndates, n)).tolist() if rng.random() < 0.3 else None),
             "hedges": hedged, "hedge_trades": [[rng.randint(1, ndates - 1), h, rng.choice([-1, 1]) * rng.randint(10, 500)] for h in hedged for _ in range(rng.randint(0, 2))]}
+    # names that leave the target list for a stretch of dates (their cell in the dated target frame is blank): Rebalance has to close them,
+    # whatever they are marked at on that date (a swap at par is worth 0 but still carries its notional)
+    spec["drops"] = []
+    if rng.random() < 0.4:
+        for _ in range(rng.randint(1, 2)):
+            a = rng.randint(1, ndates - 1)
+            spec["drops"].append([rng.choice(target_names), a, min(ndates, a + rng.randint(1, 6))])
     return spec
+
+
+def dated_targets(spec):
+    return bool(spec.get("flip_rows") or spec.get("drops"))
 
 
 def frames(spec):
@@ -69,14 +80,17 @@ def frames(spec):
     if spec["bidoffer"] is not None:
         ex["bidoffer"] = pd.DataFrame(np.array(spec["bidoffer"]), index=idx, columns=names)
     ex["nv"] = pd.Series(spec["nv"], index=idx[spec["nv_rows"]])
-    if spec.get("flip_rows"):
+    if dated_targets(spec):
         tn = list(spec["weights"].keys())
         ex["tw"] = pd.DataFrame([[weight_at(spec, n_, r) for n_ in tn] for r in range(spec["nd"])], index=idx, columns=tn)
     return idx, data, ex
 
 
 def weight_at(spec, name, row):
-    """target weight of `name` on data row `row` (sign of the first target flips at each of spec['flip_rows'])"""
+    """target weight of `name` on data row `row` (sign of the first target flips at each of spec['flip_rows']); NaN while the name is dropped"""
+    for nm, a, b in spec.get("drops") or []:
+        if nm == name and a <= row < b:
+            return float("nan")
     w = spec["weights"][name]
     if spec.get("flip_rows") and name == list(spec["weights"].keys())[0]:
         if sum(1 for r in spec["flip_rows"] if r <= row) % 2 == 1:
@@ -102,12 +116,12 @@ class HedgeTrader(bt.Algo):
         return True
 
 
-def make(spec, extra_algos_front=(), extra_algos_back=()):
+def make(spec, extra_algos_front=(), extra_algos_back=(), rebalance=None):
     idx, data, ex = frames(spec)
     sched = {"daily": algos.RunDaily(), "weekly": algos.RunWeekly(), "once": algos.RunOnce(), "everyn": algos.RunEveryNPeriods(3)}[spec["sched"]]
-    weigh = algos.WeighTarget("tw") if spec.get("flip_rows") else algos.WeighSpecified(**spec["weights"])
+    weigh = algos.WeighTarget("tw") if dated_targets(spec) else algos.WeighSpecified(**spec["weights"])
     st = list(extra_algos_front) + [algos.run_always(HedgeTrader(spec["hedge_trades"], list(idx))), sched, algos.SelectThese(list(spec["weights"].keys())),
-                                    weigh, algos.SetNotional("nv"), algos.Rebalance()] + list(extra_algos_back)
+                                    weigh, algos.SetNotional("nv"), rebalance or algos.Rebalance()] + list(extra_algos_back)
     s = FixedIncomeStrategy("fi", st, children=children(spec))
     comm = ins.Comm(spec["comm"])
     kw = dict(integer_positions=spec["integer"], commissions=(comm if spec["comm"] != "none" else None), additional_data=dict(ex))
@@ -126,9 +140,9 @@ def make_market_value(spec):
     return s, data, ex, kw
 
 
-def run_backtest(spec, extra_algos_front=(), extra_algos_back=(), market_value=False):
+def run_backtest(spec, extra_algos_front=(), extra_algos_back=(), market_value=False, rebalance=None):
     ins.install()
-    s, data, ex, kw = make_market_value(spec) if market_value else make(spec, extra_algos_front, extra_algos_back)
+    s, data, ex, kw = make_market_value(spec) if market_value else make(spec, extra_algos_front, extra_algos_back, rebalance)
     r = w2.Run()
     r.spec = spec
     mark = len(ins.EV)
@@ -164,8 +178,8 @@ def accrual(spec, ex, sec, i_full, pos):
 
 def signature(spec):
     return [sorted(set(spec["kinds"])), spec["sched"], spec["integer"], spec["comm"], spec["bidoffer"] is not None, spec["cost_long"] is not None,
-            spec["cost_short"] is not None, len(spec["nv_rows"]) < spec["nd"], bool(spec.get("flip_rows"))]
+            spec["cost_short"] is not None, len(spec["nv_rows"]) < spec["nd"], bool(spec.get("flip_rows")), bool(spec.get("drops"))]
 
 
 def sample_of(spec):
-    return {k: spec[k] for k in ("names", "kinds", "mults", "nd", "weights", "flip_rows", "sched", "integer", "comm", "nv_rows", "nv", "hedge_trades")}
+    return {k: spec[k] for k in ("names", "kinds", "mults", "nd", "weights", "flip_rows", "drops", "sched", "integer", "comm", "nv_rows", "nv", "hedge_trades")}
